@@ -49,6 +49,15 @@ Theorem C07_same_batch_cancel : forall c ops st evs script st' ev d a o i g,
 Proof. exact same_batch_cancel. Qed.
 Print Assumptions C07_same_batch_cancel.
 
+(* A cancel issued from a foreign thread is a queued functor: when doPendingFunctors runs the batch that
+   contains it and the id is registered at that point, the timer is dead afterwards (and no callback runs
+   in between); by C07_dead_id_never_runs it never runs again. *)
+Theorem C07_foreign_cancel_stops : forall c ops st evs a o st' ev, run (init c) ops = Ok (st, evs) ->
+  hget a (heap st) = Some o -> In (o_exp o, a) (timers st) -> In (PCancel a (o_seq o)) (pending st) ->
+  step st RunPending = Ok (st', ev) -> gone st' (o_seq o) /\ (forall dl now t, ~ In (ERun (o_seq o) dl now t) ev).
+Proof. exact foreign_cancel_stops. Qed.
+Print Assumptions C07_foreign_cancel_stops.
+
 (* In one expiry no sequence number runs twice. *)
 Theorem C07_once_per_expiry : forall c ops st evs script st' ev s, run (init c) ops = Ok (st, evs) ->
   fire st script = Ok (st', ev) -> (length (runs_of s ev) <= 1)%nat.
@@ -166,3 +175,11 @@ Example C07_same_batch_nonvacuous :
       | _ => False end
   | _ => False end.
 Proof. vm_compute. auto 20. Qed.
+
+(* non-vacuity of C07_foreign_cancel_stops: a foreign cancel of a registered repeater *)
+Example C07_foreign_cancel_nonvacuous :
+  match run (init 1000) [Cb (CAdd 2000 500 10); Cb (CFCancel 10 1)] with
+  | Ok (st, _) => hget 10 (heap st) = Some (mkT 1 2000 500) /\ In (2000, 10) (timers st) /\ In (PCancel 10 1) (pending st) /\
+      match run st [RunPending; Cb (CTick 5000); Fire []] with Ok (st2, ev2) => rlog ev2 = [] /\ heap st2 = [] | _ => False end
+  | _ => False end.
+Proof. vm_compute. auto 10. Qed.
